@@ -1170,10 +1170,40 @@ func (c *c08) gssSkip(fname string) {
 		test := func(truth bool) func(ssa.Value) (bool, bool) {
 			return func(cond ssa.Value) (bool, bool) {
 				x, set, ok := c08MaskTest(cond, mask80)
-				if !ok || !byteAt(x, 1) {
+				if ok && byteAt(x, 1) {
+					return true, set == truth
+				}
+				// the same test as an order comparison of the octet: b >= 0x80, b > 0x7F
+				// (long form), b < 0x80, b <= 0x7F (short form), also commuted
+				cmp, isB := cond.(*ssa.BinOp)
+				if !isB {
 					return false, false
 				}
-				return true, set == truth
+				op, bx, k := cmp.Op, cmp.X, cmp.Y
+				if _, isK := c08ConstInt(bx); isK {
+					bx, k = k, bx
+					switch op {
+					case token.LSS:
+						op = token.GTR
+					case token.LEQ:
+						op = token.GEQ
+					case token.GTR:
+						op = token.LSS
+					case token.GEQ:
+						op = token.LEQ
+					}
+				}
+				kv, isK := c08ConstInt(k)
+				if !isK || !kv.IsInt64() || !byteAt(bx, 1) {
+					return false, false
+				}
+				switch {
+				case op == token.GEQ && kv.Int64() == 0x80, op == token.GTR && kv.Int64() == 0x7F:
+					return true, truth
+				case op == token.LSS && kv.Int64() == 0x80, op == token.LEQ && kv.Int64() == 0x7F:
+					return true, !truth
+				}
+				return false, false
 			}
 		}
 		vLong := c08NewBranchView(g, test(true))
